@@ -45,7 +45,8 @@ func runC07(c *mon.Ctx) {
 	signer := w.IdP[2]
 	plaintexts := []string{"idp-signed", "forged-unsigned", "attacker-signed", "attacker-signed-trusted-keyinfo", "non-assertion", "response", "garbage"}
 	placements := []string{"direct", "direct", "extensions", "advice", "wrapper", "nested-in-assertion"}
-	recips := []string{"none", "sp", "another", "bad-base64", "another-cert-same-key", "another-ec"}
+	bundleCA := sim.MintUsage(sim.K("spsign2"), "verif-issuing-ca", base.AddDate(-15, 0, 0), base.AddDate(15, 0, 0), 90, 3)
+	recips := []string{"none", "sp", "another", "bad-base64", "another-cert-same-key", "another-ec", "bundle-ca"}
 	keyAlgs := []string{sim.RSAOAEP, sim.RSAOAEP11, sim.RSA15}
 	n := c.N(3000, 150000)
 	for k := 0; k < n; k++ {
@@ -68,6 +69,10 @@ func runC07(c *mon.Ctx) {
 			spec.Recipient = sim.MintNamed(w.SPEnc.Key, pick(r, []string{"verif-spenc", "someone-else"}), base.AddDate(-1, 0, 0), base.AddDate(5, 0, 0), 77)
 		case "another-ec":
 			spec.Recipient = sim.Wide(sim.K("idp3"), base) // a well-formed certificate holding a non-RSA key
+		case "bundle-ca":
+			// the SP's key store is a certificate bundle [SP certificate, issuing CA]; the EncryptedKey names the CA's
+			// certificate, which is in the bundle but is not the SP's certificate
+			spec.Recipient = bundleCA
 		case "bad-base64":
 			spec.RecipRaw = sim.S("!!!not base64!!!")
 		}
@@ -163,6 +168,9 @@ func runC07(c *mon.Ctx) {
 		cs.Input([]byte(doc))
 		sp, _, _ := NewSP(base, signer)
 		sp.SPKeyStore = &RSAKeyStore{C: w.SPEnc}
+		if rc == "bundle-ca" || r.IntN(6) == 0 {
+			sp.SPKeyStore = dsig.TLSCertKeyStore(tls.Certificate{Certificate: [][]byte{w.SPEnc.DER, bundleCA.DER}, PrivateKey: w.SPEnc.Key.RSA()})
+		}
 		sp.AllowMissingAttributes = true
 		var res *types.Response
 		var verr error
@@ -179,7 +187,7 @@ func runC07(c *mon.Ctx) {
 			why := "plaintext " + pk
 			if place != "direct" {
 				why = "placement " + place
-			} else if strings.HasPrefix(rc, "another") || strings.HasPrefix(rc, "bad-base64") {
+			} else if strings.HasPrefix(rc, "another") || strings.HasPrefix(rc, "bad-base64") || rc == "bundle-ca" {
 				why = "recipient " + rc
 			}
 			who := ""
@@ -209,7 +217,7 @@ func runC07(c *mon.Ctx) {
 		t      time.Time
 		inside bool
 	}{{"inside", nb.Add(time.Hour), true}, {"before", nb.Add(-time.Second), false}, {"after", na.Add(time.Second), false}, {"just-inside-start", nb.Add(time.Second), true}, {"just-inside-end", na.Add(-time.Second), true}}
-	certKinds := []string{"valid", "valid", "empty-list", "empty-bytes", "junk", "rotating-store", "retired-field-pair"}
+	certKinds := []string{"valid", "valid", "empty-list", "empty-bytes", "junk", "rotating-store", "retired-field-pair", "valid-in-bundle"}
 	nc := c.N(800, 20000)
 	for k := 0; k < nc; k++ {
 		cs := c.Begin("encryption-cert-config", k)
@@ -273,6 +281,10 @@ func runC07(c *mon.Ctx) {
 			sp.SPKeyStore = dsig.TLSCertKeyStore(tls.Certificate{Certificate: [][]byte{{}}, PrivateKey: spCert.Key.RSA(), Leaf: leaf()})
 		case "junk":
 			sp.SPKeyStore = dsig.TLSCertKeyStore(tls.Certificate{Certificate: [][]byte{[]byte("this is not DER")}, PrivateKey: spCert.Key.RSA(), Leaf: leaf()})
+		case "valid-in-bundle":
+			// [SP certificate (the probed window), issuing CA valid for decades]: only the SP certificate's validity counts
+			ca := sim.MintUsage(sim.K("spsign2"), "verif-issuing-ca", nb.AddDate(-15, 0, 0), na.AddDate(15, 0, 0), 90, 3)
+			sp.SPKeyStore = dsig.TLSCertKeyStore(tls.Certificate{Certificate: [][]byte{spCert.DER, ca.DER}, PrivateKey: spCert.Key.RSA(), Leaf: leaf()})
 		case "retired-field-pair":
 			// the deprecated field still holds a retired pair whose certificate is outside its validity at every probed
 			// clock; the setter holds the current pair. The message is encrypted to the RETIRED key: only the current
@@ -301,7 +313,10 @@ func runC07(c *mon.Ctx) {
 		if ck == "rotating-store" && !opt {
 			mustRefuse = false
 		}
-		mustAccept := ck == "valid" && (!opt || clk.inside)
+		mustAccept := (ck == "valid" || ck == "valid-in-bundle") && (!opt || clk.inside)
+		if ck == "valid-in-bundle" {
+			mustRefuse = opt && !clk.inside
+		}
 		switch {
 		case verr == nil && mustRefuse:
 			cs.Outcome("wrongly-decrypted")
